@@ -18,7 +18,9 @@ import (
 // a failing registration changes nothing.
 //
 // Known findings (known_findings.json): a failing plan is classified by its structural
-// situation (operator already stored / key already indexed / validator cap reached) and
+// situation (a stored operator given a DIFFERENT key / the key in use by ANOTHER operator / a
+// new validator while stored = MaxValidators; a plan naming an existing validator with its own
+// key is a good plan) and
 // reported under exactly that signature; everything after it in the same case is a
 // consequence and carries the same signature.  Stale historical records are reported as
 // C13:history-retention-zero only if HistoricalEntries was 0 at some begin block of the case.
@@ -322,6 +324,11 @@ func monitorVal(rep *Report, r *ValRun) valMonResult {
 					problems = append(problems, fmt.Sprintf("engine %v, positive-power validators %v, last powers %v", s.Eng, bonded, last))
 				}
 			}
+			if pl, has := plans[uint64(op.H)]; has && kind == "end" {
+				// the plan writes its validator after this block's messages: a removal of that
+				// operator earlier in the block is overridden by the plan, not lost
+				delete(removed, pl.Op)
+			}
 			for _, v := range s.Vals {
 				if removed[v.Op] {
 					problems = append(problems, fmt.Sprintf("op%d was removed in this block but is still stored", v.Op))
@@ -373,27 +380,31 @@ func planFailSig(afterDry, malformed bool) string {
 
 // classifyPlan names the structural situation of a plan against the state before its end block
 func classifyPlan(prev ValSnap, pl planInfo) string {
-	reuseOp, reuseKey := false, false
+	opStored, opOtherKey, keyElsewhere := false, false, false
 	for _, v := range prev.Vals {
 		if v.Op == pl.Op {
-			reuseOp = true
-		}
-		if v.Key == pl.Key {
-			reuseKey = true
+			opStored = true
+			if v.Key != pl.Key {
+				opOtherKey = true
+			}
+		} else if v.Key == pl.Key {
+			keyElsewhere = true
 		}
 	}
 	for _, x := range prev.Idx {
-		if x[0] == pl.Key {
-			reuseKey = true
+		if x[0] == pl.Key && x[1] != pl.Op {
+			keyElsewhere = true
 		}
 	}
 	switch {
-	case reuseOp:
+	case opOtherKey: // D8: a stored operator is given a DIFFERENT consensus key
 		return "C14:plan-reuses-operator"
-	case reuseKey:
+	case keyElsewhere: // D9: the key is in use by ANOTHER operator
 		return "C14:plan-reuses-key"
-	case uint64(len(prev.Vals))+1 > prev.MaxV:
+	case !opStored && uint64(len(prev.Vals))+1 > prev.MaxV: // D10: a new validator at the cap
 		return "C14:plan-at-cap"
 	}
+	// fresh operator + fresh key + room, or an existing validator named with its OWN key
+	// (keeps the sequencer, drops the others, swaps the executors): must work
 	return ""
 }
